@@ -607,10 +607,39 @@ def classify(c, badpos, pos_lists=None):
             return False
         if all(in_orphan(p) for p in badpos):
             return "one-point-area"
-    if c["kind"] == "arr" and badpos and c.get("tp_dtype", "f8") in ("f4", "i2", "i4") and not any(orph.values()):
-        # F16d (repaired by handoff/C16-fix3-1.diff): arithmetic in the stored type of the tie points
-        return "arithmetic-in-stored-type"
     return None
+
+
+def stored_diff(dtype, ub, ua):
+    """ub - ua formed in the storage type (the code before handoff/C16-fix3-1.diff)"""
+    d = ub - ua
+    if dtype == "f4":
+        return Fr(float(np.float32(float(d)))) if d == Fr(float(d)) else None
+    bits = {"i2": 16, "i4": 32}[dtype]
+    return Fr((int(d) + (1 << (bits - 1))) % (1 << bits) - (1 << (bits - 1)))
+
+
+def explained_by_stored_arith(c, positions, ovals, shape):
+    """F16d: do the observed values at these positions (whole array, one
+    subsampled dimension, coordinates, exact family) equal the Appendix J
+    formula with ub - ua formed in the stored type of the tie points?"""
+    if (c["kind"] != "arr" or c.get("tp_dtype") not in ("f4", "i2", "i4") or c["bounds"] or not c["exact"]
+            or len(c["sdims"]) != 1 or len(c["tp"].shape) != 1 or not positions):
+        return False
+    tpi, tp = c["tpi"][0], c["tp"]
+    for p in positions:
+        loc = locate(tpi, p[0], False)
+        g = ovals[int(np.ravel_multi_index(p, shape))]
+        if loc is None or g is None:
+            return False
+        k, num, sv = loc
+        d = stored_diff(c["tp_dtype"], tp[k + 1], tp[k])
+        if d is None:
+            return False
+        e = tp[k] + sv * (d + (4 * c["w"][num] * (1 - sv) if c["name"] == "quadratic" and c["w"] is not None else 0))
+        if e != g:
+            return False
+    return True
 
 
 # ---------------------------------------------------------------------------
@@ -666,7 +695,9 @@ def check_arr(chk, c, out, lits, stats):
                     if ovals[n] is None or ovals[n] != tp[kk]:
                         tie_bad.append(u)
             if tie_bad:
-                sig = classify(c, tie_bad) or "tie-point-not-reproduced"
+                sig = classify(c, tie_bad) or (
+                    "arithmetic-in-stored-type" if k == "array" and explained_by_stored_arith(c, tie_bad, ovals, shape)
+                    else "tie-point-not-reproduced")
                 chk.fail("property", sig,
                          f"{name}: tie point not reproduced at its tie point index: uncompressed index {tie_bad[0]} "
                          f"(tie point indices {c['tpi']})",
@@ -676,7 +707,9 @@ def check_arr(chk, c, out, lits, stats):
                 stats["tie_fail"] += 1
             bad = [p for p in bad if p not in set(tie_bad)]
             if bad:
-                sig = classify(c, bad) or ("bounds-mismatch" if bounds else "value-mismatch")
+                sig = classify(c, bad) or (
+                    "arithmetic-in-stored-type" if k == "array" and explained_by_stored_arith(c, bad, ovals, shape)
+                    else "bounds-mismatch" if bounds else "value-mismatch")
                 chk.fail("property", sig,
                          f"{name}{' bounds' if bounds else ''}: uncompressed values differ from the Appendix J reference at {bad[:3]}",
                          {"input": describe(c), "positions": bad[:5],
